@@ -134,8 +134,12 @@ func parseParams(value string, eval bool, options buildOpts) (
 			strParam = p.value
 		}
 
-		if err = os.Setenv(strconv.Itoa(i+1), strParam); err != nil {
-			return
+		if !options.noEval {
+			// Positional parameters are exported only when the DAG is
+			// loaded for execution.
+			if err = os.Setenv(strconv.Itoa(i+1), strParam); err != nil {
+				return
+			}
 		}
 
 		if !options.noEval && p.name != "" {
